@@ -25,7 +25,9 @@ RULE = ("histories: every sequence up to length L1 over the 9-operation alphabet
         "{get n1, get n2, put n1 v2, put n1 v1, delete n1, select [n2,n1]} and over the 3-name alphabet {get n1, "
         "get n2, get n3, put n1 v2, delete n1}; every history under cache sizes {0, 1, 2, -1} x auto_reload {on, off} "
         "on DictLoader; shorter bounds on FunctionLoader (uptodate = version check / None / always True / always "
-        "False) and FileSystemLoader with os.utime-forced mtimes.  get alternates get_template / "
+        "False) and FileSystemLoader with os.utime-forced mtimes; layered loaders (FileSystemLoader with two search "
+        "paths, ChoiceLoader of two DictLoaders) over {get, select, put / delete in layer 1 or layer 2}, where a "
+        "put into layer 1 shadows the template loaded from layer 2.  get alternates get_template / "
         "get_or_select_template.  distinct = (loader kind, auto_reload, size, history); non-trivial = a get/select "
         "follows a put or delete of a name that was loaded before.")
 
@@ -34,6 +36,9 @@ ALPHA_FULL = ["g:1", "g:2", "s:1,2", "s:2,1", "p:1:1", "p:1:2", "p:2:2", "d:1", 
 ALPHA_RED = ["g:1", "g:2", "p:1:2", "p:1:1", "d:1", "s:2,1"]
 ALPHA_3 = ["g:1", "g:2", "g:3", "p:1:2", "d:1"]
 INIT = {1: 1, 2: 1, 3: 1}
+INIT2 = {1: 3, 2: 3, 3: 3}          # layered kinds: everything starts in layer 2 (versions 3, 4); layer 1 uses versions 1, 2
+ALPHA_LAY = ["g:1", "p1:1:1", "d1:1", "p2:1:4", "d2:1", "s:1,2"]
+SHADOW_SIG = "C25:shadowing-addition-in-earlier-choice-loader"
 MT0 = 1_000_000_000
 
 
@@ -57,6 +62,21 @@ class World:
             for n, v in self.state.items():
                 self._write(n, v)
             self.loader = jinja2.FileSystemLoader(fsdir)
+        elif kind in ("fs2", "choice"):
+            # two layers (search paths / member loaders); layer 1 shadows layer 2
+            self.layers = [dict(), dict(INIT2)]
+            self.state = dict(INIT2)
+            if kind == "fs2":
+                self.dirs = [os.path.join(fsdir + "2", "p1"), os.path.join(fsdir + "2", "p2")]
+                for d in self.dirs:
+                    shutil.rmtree(d, ignore_errors=True)
+                    os.makedirs(d)
+                for n, v in self.layers[1].items():
+                    self._write_at(1, n, v)
+                self.loader = jinja2.FileSystemLoader(self.dirs)
+            else:
+                self.maps = [{}, {NAMES[n]: src(n, v) for n, v in self.layers[1].items()}]
+                self.loader = jinja2.ChoiceLoader([jinja2.DictLoader(self.maps[0]), jinja2.DictLoader(self.maps[1])])
         else:
             st = self.state
             inv = {v: k for k, v in NAMES.items()}
@@ -72,6 +92,38 @@ class World:
                     return src(n, v), None, (lambda: st.get(n) == v)
                 return src(n, v), None, (lambda: kind == "funcT")
             self.loader = jinja2.FunctionLoader(load_func)
+
+    def _write_at(self, layer, n, v):
+        p = os.path.join(self.dirs[layer], NAMES[n])
+        with open(p, "w") as f:
+            f.write(src(n, v))
+        os.utime(p, (MT0 + 1000 * v, MT0 + 1000 * v))
+
+    def layer_op(self, layer, n, v):
+        """put (v given) or delete (v None) name n in one layer; returns the effective version afterwards"""
+        if v is None:
+            self.layers[layer].pop(n, None)
+        else:
+            self.layers[layer][n] = v
+        if self.kind == "fs2":
+            if v is None:
+                try:
+                    os.unlink(os.path.join(self.dirs[layer], NAMES[n]))
+                except FileNotFoundError:
+                    pass
+            else:
+                self._write_at(layer, n, v)
+        else:
+            if v is None:
+                self.maps[layer].pop(NAMES[n], None)
+            else:
+                self.maps[layer][NAMES[n]] = src(n, v)
+        eff = self.layers[0].get(n, self.layers[1].get(n))
+        if eff is None:
+            self.state.pop(n, None)
+        else:
+            self.state[n] = eff
+        return eff
 
     def _write(self, n, v):
         p = os.path.join(self.fsdir, NAMES[n])
@@ -97,7 +149,28 @@ class World:
                 pass
 
 
-UPT = {"dict": "V", "fs": "V", "funcV": "V", "funcN": "N", "funcT": "T", "funcF": "F"}
+UPT = {"dict": "V", "fs": "V", "funcV": "V", "funcN": "N", "funcT": "T", "funcF": "F", "fs2": "V", "choice": "V"}
+
+
+def model_ops(kind, ops):
+    """layered operations become put / delete of the EFFECTIVE version in the model"""
+    if kind not in ("fs2", "choice"):
+        return list(ops)
+    layers = [dict(), dict(INIT2)]
+    out = []
+    for o in ops:
+        p = o.split(":")
+        if p[0] in ("p1", "p2", "d1", "d2"):
+            layer, n = int(p[0][1]) - 1, int(p[1])
+            if p[0][0] == "p":
+                layers[layer][n] = int(p[2])
+            else:
+                layers[layer].pop(n, None)
+            eff = layers[0].get(n, layers[1].get(n))
+            out.append(f"p:{n}:{eff}" if eff is not None else f"d:{n}")
+        else:
+            out.append(o)
+    return out
 
 
 def real_run(jinja2, kind, ar, size, ops, fsdir=None):
@@ -113,6 +186,10 @@ def real_run(jinja2, kind, ar, size, ops, fsdir=None):
     checks_current = ar and UPT[kind] in ("V", "F")
     for o in ops:
         p = o.split(":")
+        if p[0] in ("p1", "p2", "d1", "d2"):
+            w.layer_op(int(p[0][1]) - 1, int(p[1]), int(p[2]) if p[0][0] == "p" else None)
+            res.append("U")
+            continue
         if p[0] == "p":
             w.put(int(p[1]), int(p[2]))
             res.append("U")
@@ -225,9 +302,21 @@ def nontrivial(ops):
     return False
 
 
+def shadowing(ops):
+    """a template is added to layer 1 after it was loaded from layer 2"""
+    loaded = False
+    for o in ops:
+        if o[0] in "gs":
+            loaded = True
+        elif o.startswith("p1") and loaded:
+            return True
+    return False
+
+
 def line(kind, ar, size, ops):
-    init = " ".join(f"{n} {v}" for n, v in INIT.items())
-    return f"{ar} {UPT[kind]} {size} {len(INIT)} {init} " + " ".join(ops)
+    ini = INIT2 if kind in ("fs2", "choice") else INIT
+    init = " ".join(f"{n} {v}" for n, v in ini.items())
+    return f"{ar} {UPT[kind]} {size} {len(ini)} {init} " + " ".join(model_ops(kind, ops))
 
 
 def histories(alpha, lo, hi):
@@ -246,6 +335,19 @@ def run(ctx):
         "template globals updates on cache hits are not modelled",
     ]
     ctx.proof("C25")
+    # translator tie (T5): the current source of Environment._load_template, as a term of Lib/PyTc, is proved equal
+    # to Model.Tc.load_template for every state, name and globals truth value; create_cache / is_up_to_date /
+    # the entry points funnelling into _load_template are checked structurally
+    import sys
+    sys.path.insert(0, os.path.join(lib.ROOT, "gen"))
+    import tc_translate
+    try:
+        ok, out = ctx.coq_obligation("Gen_tc", tc_translate.emit(lib.SRC), n_obligations=1)
+        if ok:
+            ctx.trusted.append("Gen_tc (_load_template source = model): " + " ".join(out.split()))
+    except tc_translate.Untranslatable as e:
+        ctx.obligations += 1
+        ctx.broken.append(f"translator gen/tc_translate.py: environment.py left the translatable vocabulary: {e}")
 
     L1 = ctx.size(4, 5)
     L2 = ctx.size(5, 6)
@@ -266,7 +368,7 @@ def run(ctx):
                 cases.append(("dict", ar, size, h))
     short = list(histories(ALPHA_FULL, 0, L1 - 1))
     for kind in ("funcV", "funcN", "funcT", "funcF"):
-        for size in (0, 1, 2, -1):
+        for size in ((0, 1, 2, -1) if kind == "funcV" else (1, -1)):
             for ar in (1, 0):
                 for h in short:
                     cases.append((kind, ar, size, h))
@@ -275,6 +377,12 @@ def run(ctx):
         for ar in (1, 0):
             for h in fs_h:
                 cases.append(("fs", ar, size, h))
+    # layered loaders: FileSystemLoader with two search paths, ChoiceLoader of two DictLoaders; layer 1 shadows layer 2
+    lay_h = list(histories(ALPHA_LAY, 0, L1))
+    for kind in ("fs2", "choice"):
+        for size, ar in ((-1, 1), (1, 1), (-1, 0)):
+            for h in lay_h:
+                cases.append((kind, ar, size, h))
     # random longer histories on every kind
     for _ in range(ctx.size(1500, 20000)):
         kind = ctx.rng.choice(["dict", "fs", "funcV", "funcN", "funcT", "funcF"])
@@ -294,13 +402,14 @@ def run(ctx):
                      key=(kind, ar, size, tuple(h)) if nt else None)
             ctx.count(f"{kind}_len{min(len(h), 7)}")
             if fail:
-                ctx.reject(dict(case, impl=impl, model=m), fail)
+                ctx.reject(dict(case, impl=impl, model=m), fail, SHADOW_SIG if kind == "choice" and shadowing(h) else None)
             elif impl != m:
                 ctx.model_mismatch("K-rt Environment._load_template / select_template", case, m, impl, None)
             else:
                 ctx.validated()
     finally:
         shutil.rmtree(fsdir, ignore_errors=True)
+        shutil.rmtree(fsdir + "2", ignore_errors=True)
 
     for size in (0, 1, 2, -1):
         for ar in (0, 1):
@@ -331,6 +440,7 @@ def replay(ctx, data):
         impl, fail = real_run(jinja2, case["loader"], case["auto_reload"], case["cache_size"], case["ops"], fsdir)
     finally:
         shutil.rmtree(fsdir, ignore_errors=True)
+        shutil.rmtree(fsdir + "2", ignore_errors=True)
     m = ctx.driver("tc", [line(case["loader"], case["auto_reload"], case["cache_size"], case["ops"])])[0]
     print("model:", m, "\nimpl :", impl, "\noracle:", fail)
     if fail:
